@@ -907,18 +907,18 @@ NT_EXPR = "non-trivial = at least one differential operator and a non-default bo
 
 SUBCHECKS = [
     SubCheck("class_numpy_vs_compiled", strategy=class_cases, check=check_class_numpy_vs_compiled, mode="nojit",
-             budget={"quick": 1200, "thorough": 16000}, shards={"quick": 3, "thorough": 8}, rule=NT_CLASS),
+             budget={"quick": 1000, "thorough": 20000}, shards={"quick": 4, "thorough": 8}, rule=NT_CLASS),
     SubCheck("class_vs_expression_pde", strategy=lambda: class_cases(for_c=True), check=check_class_vs_expression,
-             mode="nojit", budget={"quick": 500, "thorough": 8000}, shards={"quick": 3, "thorough": 8},
+             mode="nojit", budget={"quick": 450, "thorough": 8000}, shards={"quick": 3, "thorough": 8},
              rule="non-trivial = some parameter not in {0, 1} and a non-default boundary condition"),
     SubCheck("expr_pde_numpy_vs_compiled", strategy=expr_pde_cases, check=check_expr_numpy_vs_compiled, mode="nojit",
-             budget={"quick": 300, "thorough": 6000}, shards={"quick": 4, "thorough": 8}, rule=NT_EXPR),
+             budget={"quick": 300, "thorough": 6000}, shards={"quick": 3, "thorough": 8}, rule=NT_EXPR),
     SubCheck("expr_pde_vs_field_api", strategy=expr_pde_cases, check=check_expr_vs_field_api, mode="nojit",
              budget={"quick": 400, "thorough": 8000}, shards={"quick": 3, "thorough": 8}, rule=NT_EXPR),
     SubCheck("class_numpy_vs_compiled_jit", strategy=lambda: class_cases(jit=True),
              check=check_class_numpy_vs_compiled_jit, mode="jit",
-             budget={"quick": 16, "thorough": 300}, shards={"quick": 2, "thorough": 8}, rule=NT_CLASS),
+             budget={"quick": 12, "thorough": 300}, shards={"quick": 2, "thorough": 8}, rule=NT_CLASS),
     SubCheck("expr_pde_numpy_vs_compiled_jit", strategy=lambda: expr_pde_cases(jit=True),
              check=check_expr_numpy_vs_compiled_jit, mode="jit",
-             budget={"quick": 8, "thorough": 100}, shards={"quick": 1, "thorough": 4}, rule=NT_EXPR),
+             budget={"quick": 6, "thorough": 100}, shards={"quick": 2, "thorough": 4}, rule=NT_EXPR),
 ]
